@@ -101,6 +101,10 @@ func (p *Core) genSend() []sim.Op {
 		}
 		return []sim.Op{op}
 	}
+	if p.Opt.FarTimeouts {
+		op.M = dstTime.UnixNano() + int64(300*24*time.Hour)
+		return []sim.Op{op}
+	}
 	switch w.Pick(45, 35, 17, gb) {
 	case 0: // height only
 		if tight {
@@ -228,7 +232,13 @@ func (p *Core) pickInflight() *PktState {
 func (p *Core) Gen(w *sim.World) []sim.Op {
 	o := p.Opt
 	for try := 0; try < 8; try++ {
-		switch w.Pick(o.WSend, o.WRelay, o.WBlock, o.WDup, o.WEarlyTmo, o.WClose, o.WMut, o.WRestart, o.WUpdate, o.WAsyncAck, 2) {
+		switch w.Pick(o.WSend, o.WRelay, o.WBlock, o.WDup, o.WEarlyTmo, o.WClose, o.WMut, o.WRestart, o.WUpdate, o.WAsyncAck, 2, o.WLocalVerify, o.WDelayProbe) {
+		case 11:
+			return p.genLocalVerify()
+		case 12:
+			if ops := p.genDelayProbe(); ops != nil {
+				return ops
+			}
 		case 0:
 			if ops := p.genSend(); ops != nil {
 				return ops
@@ -538,9 +548,5 @@ func (p *Core) Drain(w *sim.World) []sim.Op {
 	}
 	return nil
 }
-
-func (p *Core) genMut() []sim.Op { return nil }
-
-func (p *Core) execMut(op sim.Op) { p.w.Noop() }
 
 var _ = fmt.Sprintf
